@@ -9,6 +9,7 @@ import (
 	"context"
 	"errors"
 	"fmt"
+	"math"
 	"net"
 	"os"
 	"sync"
@@ -131,7 +132,7 @@ func readWithin(a *adapter, buf []byte, d time.Duration) (int, error, bool) {
 	}
 }
 
-const ruleC10V = "rapid-drawn program on packetio.Buffer, a dpipe end or a Bridge endpoint with deadline/deadline.go yield-instrumented and on a virtual clock: a reader task (1..3 reads), a deadliner task (1..4 SetReadDeadline: zero | past | now+1,2,5 units; a drawn subset issued only after a timer has fallen due since the previous call), an injector task (0..2 messages from the peer) and a clock task whose advances turn every due timer into a callback task; rapid-drawn schedule over every lock/channel operation of deadline.go; oracle: a read fails with a timeout only if some non-zero deadline that may have been in force during the call had passed when it returned; at quiescence no read is parked while the last deadline set is non-zero and has passed (all due callbacks have run); then, outside the session: a deadline one unit ahead is armed and made to pass - every parked read must be released and two further reads must time out although a message is waiting (expiry persists) - and after SetReadDeadline(zero) the next read returns that message; non-trivial = a deadline was changed while a timer callback was dispatched and not finished; distinct by hash of program + step trace"
+const ruleC10V = "rapid-drawn program on packetio.Buffer, a dpipe end or a Bridge endpoint with deadline/deadline.go yield-instrumented and on a virtual clock: a reader task (1..3 reads), a deadliner task (1..4 SetReadDeadline: zero | past | now+1,2,5 units | the year 9999, Unix(2^40), now + the largest Duration; a drawn subset issued only after a timer has fallen due since the previous call), an injector task (0..2 messages from the peer) and a clock task whose advances turn every due timer into a callback task; rapid-drawn schedule over every lock/channel operation of deadline.go; oracle: a read fails with a timeout only if some non-zero deadline that may have been in force during the call had passed when it returned; at quiescence no read is parked while the last deadline set is non-zero and has passed (all due callbacks have run); then, outside the session: a deadline one unit ahead is armed and made to pass - every parked read must be released and two further reads must time out although a message is waiting (expiry persists) - and after SetReadDeadline(zero) the next read returns that message; non-trivial = a deadline was changed while a timer callback was dispatched and not finished; distinct by hash of program + step trace"
 
 func TestC10VirtualDeadlines(t *testing.T) {
 	r := ev.New("C10", "virtual-deadlines", ruleC10V)
@@ -149,11 +150,14 @@ func TestC10VirtualDeadlines(t *testing.T) {
 		} else {
 			for i, n := 0, rapid.IntRange(1, 4).Draw(t, "nops"); i < n; i++ {
 				o := dlOp{}
-				switch rapid.IntRange(0, 5).Draw(t, "op") {
+				switch rapid.IntRange(0, 6).Draw(t, "op") {
 				case 0:
 					o.Kind = "past"
 				case 1, 2:
 					o.Kind = "zero"
+				case 3:
+					o.Kind, o.D = "farthest", rapid.IntRange(0, 2).Draw(t, "which")
+					c.Label("farthest-deadline")
 				default:
 					o.Kind, o.D = "future", rapid.SampledFrom([]int{1, 2, 5}).Draw(t, "d")
 				}
@@ -244,6 +248,8 @@ func TestC10VirtualDeadlines(t *testing.T) {
 					to = clock.Now().Add(-unit)
 				case "future":
 					to = clock.Now().Add(time.Duration(op.D) * unit)
+				case "farthest":
+					to = []time.Time{time.Date(9999, 12, 31, 23, 59, 59, 0, time.UTC), time.Unix(1<<40, 0), clock.Now().Add(time.Duration(math.MaxInt64))}[op.D%3]
 				}
 				doSet(to)
 			}
